@@ -165,6 +165,24 @@ pub fn part_a(api: &Api, ord: usize, seed: u64, cx: &mut Cx, mode: Mode) {
             let (ke2, st) = api.slogin_start(&mut t, &Blob::n(&setup), fb.as_ref(), &Blob::n(&clients[q].1), CREDS[c], None, None, None).map_err(|e| format!("slogin_start {:?}", e))?;
             servers.push(Srv { q, r: if r == 0 { None } else { Some(r) }, c, ke2, st });
         }
+        // server sessions opened while the server's random generator FAILS (environment fault): if the library still
+        // opens them, they take part in the routing product like any other session (two such sessions on one request
+        // must still be two distinct sessions)
+        if mode == Mode::Own {
+            for q in [0usize, 2] {
+                for _dup in 0..2 {
+                    let mut ft = Tape::seeded(seed, &format!("c07a/failing/{}", ord));
+                    ft.fail_at = Some(0);
+                    let fb = files[1].as_ref().map(|f| Blob::n(&f.1));
+                    if let Ok((ke2, st)) = api.slogin_start(&mut ft, &Blob::n(&setup), fb.as_ref(), &Blob::n(&clients[q].1), CREDS[0], None, None, None) {
+                        cx.outcome("session-opened-although-generator-failed");
+                        servers.push(Srv { q, r: Some(1), c: 0, ke2, st });
+                    } else {
+                        cx.outcome("session-refused-when-generator-fails");
+                    }
+                }
+            }
+        }
         cx.context_done();
         cx.state(&("a", ord));
         routing(api, &files, &clients, &servers, cx, &format!("population-order-{}", ord), mode);
